@@ -122,7 +122,52 @@ def decl_key(d):
     return d[0] + " :: " + re.sub(r"\s+", " ", d[2])
 
 
+def scan_counters():
+    """C15's atomicity assumption, checked on the current source: every update of the hit / miss counters of
+    `CacheStats` (stats.rs) is one atomic read-modify-write (`fetch_add`), except the `store(0, …)` of `reset` (and the
+    initialisation); and nobody outside stats.rs touches the counter fields.  A `load` + `store` pair is a lost-update
+    waiting for two threads (the Lean model of the counters assumes `fetch_add`)."""
+    problems = []
+    path = os.path.join(REPO, "cachelito-core/src/stats.rs")
+    if not os.path.exists(path):
+        return ["cachelito-core/src/stats.rs is gone"], 0
+    lines = open(path).read().split("\n")
+    keep = _strip(lines)
+    cur_fn = None
+    updates = 0
+    for i in keep:
+        code = lines[i].split("//")[0]
+        m = re.search(r"\bfn\s+(\w+)", code)
+        if m:
+            cur_fn = m.group(1)
+        if re.search(r"\.(hits|misses)\s*\.\s*fetch_add\(\s*1\s*,", code):
+            updates += 1
+            continue
+        mm = re.search(r"\.(hits|misses)\s*\.\s*(store|swap|fetch_sub|fetch_update|compare_exchange\w*|fetch_\w+)\(([^,)]*)", code)
+        if mm:
+            if mm.group(2) == "store" and mm.group(3).strip() == "0" and cur_fn in ("reset", "new", "default"):
+                continue
+            problems.append(f"cachelito-core/src/stats.rs:{i + 1}: counter `{mm.group(1)}` updated by `{mm.group(2)}({mm.group(3).strip()}…)` in fn {cur_fn} - not a single atomic increment")
+    # other files must not reach into the counters
+    for rel in _files():
+        if rel.endswith("stats.rs"):
+            continue
+        ls = open(os.path.join(REPO, rel)).read().split("\n")
+        for i in _strip(ls):
+            code = ls[i].split("//")[0]
+            if re.search(r"\.(hits|misses)\s*\.\s*(store|fetch_\w+|swap|compare_exchange\w*)\(", code):
+                problems.append(f"{rel}:{i + 1}: counter updated outside stats.rs: `{code.strip()[:80]}`")
+    return problems, updates
+
+
 def run_static_stream(prop, stream, tier, seed, workdir, scale=1):
+    if stream.get("what_kind") == "counters":
+        problems, updates = scan_counters()
+        verdicts = [{"kind": "DIFF", "id": None, "episode": 0, "step": 0,
+                     "text": "TIE " + pr + " (the model of the statistics assumes one atomic fetch_add per counted lookup)"} for pr in problems]
+        acc = {"steps": updates, "events": {"atomic-counter-increment-site": updates}, "configs": set(), "by_flavour_policy": {},
+               "nontrivial": set(range(updates)), "samples": []}
+        return {"episodes": updates, "corpus_episodes": 0, "acc": acc, "verdicts": verdicts, "model_runs": 0}
     r = scan()
     verdicts = []
     for rel, ln, code in r["unhooked"]:
@@ -149,6 +194,7 @@ def run_static_stream(prop, stream, tier, seed, workdir, scale=1):
 
 if __name__ == "__main__":
     import sys
+    print("counters:", scan_counters())
     r = scan()
     if len(sys.argv) > 1 and sys.argv[1] == "--write-base":
         json.dump({"decls": sorted(set(decl_key(d) for d in r["decls"]))}, open(BASE, "w"), indent=1)
